@@ -215,6 +215,10 @@ MOMENTS = [
 ]
 
 
+# stored predictors are called many times (objective, constraints, predict): a call is a pure function of its argument
+CALLABLES = [("fairlearn/reductions/_exponentiated_gradient/_lagrangian.py", "_PredictorAsCallable", ("__init__",), {}, ("__call__",), set())]
+
+
 def report(rep, label="P", classes=None, conditions=None, table=None):
     """classes / conditions restrict the report (used by the checks of other properties: e.g. C09 asks for F5/F6 of GridSearch only); keys of violations
     carry the property id of the asking check unless they are one of C19's recorded findings"""
